@@ -1,6 +1,6 @@
 (* C08 - fits are equivariant under relabelling and changes of coordinates *)
 From Coq Require Import QArith List Bool Arith Permutation.
-From TW Require Import GJModel LSQ Rscale Shift Weights Clip ClipPerm Equivariance Unique EquivSim EquivScaleW Rscale2.
+From TW Require Import GJModel LSQ Rscale Shift Weights Clip ClipPerm Equivariance Unique EquivSim EquivScaleW Rscale2 EquivTranslate.
 Import ListNotations.
 Open Scope Q_scope.
 
@@ -83,6 +83,20 @@ Theorem C08_centre : forall cx cy l a b c d e g,
 Proof. exact ssr_tot_centre. Qed.
 Print Assumptions C08_translation.
 Print Assumptions C08_centre.
+
+(* parameter level for the general family: translating both coordinate sets by t (equivalently choosing another
+   rotation centre, t = -c) leaves the matrix unchanged and moves the shift by t - F t, i.e. the effective map
+   xy ~ F uv + s_eff is the same *)
+Theorem C08_translation_general_params : forall t1 t2 l p q p' q' a b c,
+  (forall z, In z l -> 0 <= pw z) ->
+  fit_general l = FitOk p q -> fit_general (map (tr t1 t2) l) = FitOk p' q' ->
+  In a l -> In b l -> In c l -> 0 < pw a -> 0 < pw b -> 0 < pw c -> noncollinear3 a b c ->
+  (qnth p' 0 == qnth p 0 /\ qnth p' 1 == qnth p 1 /\
+   qnth p' 2 == qnth p 2 + t1 - (qnth p 0 * t1 + qnth p 1 * t2)) /\
+  (qnth q' 0 == qnth q 0 /\ qnth q' 1 == qnth q 1 /\
+   qnth q' 2 == qnth q 2 + t2 - (qnth q 0 * t1 + qnth q 1 * t2)).
+Proof. exact general_fit_translate_params. Qed.
+Print Assumptions C08_translation_general_params.
 
 (* --- rotation x uniform scale (and reflections) of both coordinate sets: the conjugated map has its
        objective scaled by k^2 (same minimisers up to conjugation) --- *)
